@@ -361,6 +361,7 @@ func (h *httpServerHandler) handlePostRequest(ctx context.Context, w http.Respon
 		}
 		if err := sseResponder.respond(ctx, w, r, jsonrpcResponse, session); err != nil {
 			h.logger.Errorf("Failed to send SSE success response: %v", err)
+			h.respondEncodingFailure(ctx, w, r, sseResponder, req.ID, err, session)
 		}
 		return
 	}
@@ -395,6 +396,17 @@ func (h *httpServerHandler) handlePostRequest(ctx context.Context, w http.Respon
 	}
 	if err := responder.respond(respCtx, w, r, jsonrpcResponse, session); err != nil {
 		h.logger.Errorf("Failed to send success response: %v", err)
+		h.respondEncodingFailure(respCtx, w, r, responder, req.ID, err, session)
+	}
+}
+
+// respondEncodingFailure reports a result that could not be encoded as a JSON-RPC
+// internal error, so that the client never receives an empty success.
+func (h *httpServerHandler) respondEncodingFailure(ctx context.Context, w http.ResponseWriter, r *http.Request,
+	rs responder, id interface{}, cause error, session Session) {
+	errorResp := newJSONRPCErrorResponse(id, ErrCodeInternal, cause.Error(), nil)
+	if err := rs.respond(ctx, w, r, errorResp, session); err != nil {
+		http.Error(w, "Internal server error", http.StatusInternalServerError)
 	}
 }
 
